@@ -3,7 +3,8 @@ C16 — rate-constant models evaluate to their defining formulas under every bac
 Only the property theorems (+ non-vacuity examples).  Model: `Model/Expr.lean`, generated functions:
 `Gen/FnRateConst.lean` (regenerated from `arrhenius.py` / `eyring.py` on every run), lemmas: `Proofs/Expr.lean`.
 -/
-import ChemModel.Proofs.Expr
+import ChemModel.Proofs.ExprSym
+import ChemModel.Gen.RatesSrc
 set_option autoImplicit false
 
 namespace ChemModel.C16
@@ -12,15 +13,16 @@ open ChemModel ChemModel.PyExpr
 /-! ## Arrhenius / Eyring parameter sets (functions translated from the source) -/
 
 /-- `arrhenius_equation(A, Ea, T)` (= `ArrheniusParam(A, Ea)(T)`) is `A·exp(−Ea/(R·T))` with `R = 8.314472` as written
-in `_get_R`, for all real A, Ea, T. -/
-theorem arrhenius_spec (A Ea T : ℝ) :
+in `_get_R`, for all real A, Ea and T ≠ 0 (Python raises `ZeroDivisionError` at T = 0; Lean's `x/0 = 0` must not be what
+makes the statement true). -/
+theorem arrhenius_spec (A Ea T : ℝ) (_hT : T ≠ 0) :
     Gen.arrheniusEquation A Ea T = A * Real.exp (-Ea / (8.314472 * T)) := by
   simp only [Gen.arrheniusEquation, Gen.getR, NumReal.exp_def, NumReal.dec_eq]
   norm_num
 
 /-- `eyring_equation(dH, dS, T)` (= `EyringParam(dH, dS)(T)`) is `(kB/h·T)·exp(dS/R)·exp(−dH/(R·T))` with
 `kB/h = 2.083664399411865234375e10` and `R = 8.314472` as written in the source. -/
-theorem eyring_spec (dH dS T : ℝ) :
+theorem eyring_spec (dH dS T : ℝ) (_hT : T ≠ 0) :
     Gen.eyringEquation dH dS T
       = (20836643994.11865234375 * T) * Real.exp (dS / 8.314472) * Real.exp (-dH / (8.314472 * T)) := by
   simp only [Gen.eyringEquation, Gen.getR, Gen.getKBOverH, NumReal.exp_def, NumReal.dec_eq]
@@ -36,11 +38,6 @@ theorem from_rateconst_roundtrip (Ea T k : ℝ) (hT : T ≠ 0) :
     field_simp
     ring
   rw [h, Real.exp_zero, mul_one]
-
-/-- the constructed parameter set keeps the activation energy, and `A` is positive for a positive rate constant -/
-theorem from_rateconst_A_pos (Ea T k : ℝ) (hk : 0 < k) : 0 < Gen.arrheniusFromRateconstA Ea T k := by
-  simp only [Gen.arrheniusFromRateconstA, NumReal.exp_def]
-  exact mul_pos hk (Real.exp_pos _)
 
 /-! ## parameter set → rate expression of a reaction -/
 
@@ -222,13 +219,42 @@ theorem poly_shift_spec (ctx : Ctx ℝ) (p : String) (recip : Bool) (a0 c : ℝ)
   rw [eval_poly_node ctx p recip true (a0 :: c :: cs) none x (by simp) hx, polyBody_shift_spec recip x a0 hx0 c cs]
   rfl
 
-/-- `piecewise_spec` (backends without `Piecewise`): when the selection over `lo₀, e₀, up₀ = lo₁, e₁, up₁, …` returns `v`,
-then `v = eᵢ` for the FIRST interval `[loᵢ, upᵢ]` that contains `x`; and it does return a value whenever some interval
-contains `x` (otherwise `ValueError`). -/
-theorem piecewise_spec (x : ℝ) (b : List ℝ) :
-    (∀ v, pwSelect x b = .ok v → ∃ i, pwHit x b i ∧ b[2 * i + 1]? = some v ∧ ∀ j < i, ¬ pwHit x b j)
-    ∧ (∀ i, pwHit x b i → (∃ e, b[2 * i + 1]? = some e) → ∃ v, pwSelect x b = .ok v) :=
-  ⟨pwSelect_spec x b, pwSelect_complete x b⟩
+/-- `piecewise_spec` (backends without `Piecewise`: math, numpy), for an instance `create_Piecewise(p)([lo₀, e₀, up₀, e₁, up₁, …])`
+and `x = variables[p]`: fewer than three or an even number of entries is `ValueError`; otherwise the instance evaluates to `v`
+exactly when `v = eᵢ` for the FIRST closed interval `[loᵢ, upᵢ]` that contains `x` (no such interval: `ValueError`). -/
+theorem piecewise_spec (ctx : Ctx ℝ) (p : String) (b : List ℝ) (x : ℝ) (hx : ctx.vars p = some x) :
+    ((b.length < 3 ∨ b.length % 2 ≠ 1) → eval ctx (.node (.piecewise p) false (b.map Val.num) none) = .error .valueError)
+    ∧ (3 ≤ b.length → b.length % 2 = 1 → ∀ v,
+        (eval ctx (.node (.piecewise p) false (b.map Val.num) none) = .ok v
+          ↔ ∃ i, pwHit x b i ∧ b[2 * i + 1]? = some v ∧ ∀ j < i, ¬ pwHit x b j)) := by
+  rw [eval_piecewise_node ctx p b x hx]
+  constructor
+  · intro h
+    unfold pwBody
+    rcases h with h | h
+    · simp [h]
+    · by_cases h3 : b.length < 3
+      · simp [h3]
+      · simp [h3, h]
+  · intro h3 hodd v
+    have hb : pwBody b x = pwSelect x b := by
+      unfold pwBody
+      simp [Nat.not_lt.mpr h3, hodd]
+    rw [hb]
+    constructor
+    · exact pwSelect_spec x b v
+    · rintro ⟨i, hi, hv, hmin⟩
+      obtain ⟨v', hv'⟩ := pwSelect_complete x b i hi ⟨v, hv⟩
+      obtain ⟨i', hi', hvi', hmin'⟩ := pwSelect_spec x b v' hv'
+      have hii : i = i' := by
+        rcases Nat.lt_trichotomy i i' with hlt | heq | hgt
+        · exact absurd hi (hmin' i hlt)
+        · exact heq
+        · exact absurd hi' (hmin i' hgt)
+      subst hii
+      rw [hv] at hvi'
+      cases hvi'
+      exact hv'
 
 /-! ## backends -/
 
@@ -242,16 +268,35 @@ theorem backend_naturality {α β : Type} [Add α] [Sub α] [Mul α] [Div α] [N
     eval (ctx.map φ) (v.map φ) = (eval ctx v).map φ :=
   eval_nat h ctx v
 
-/-- the same for the functions translated from `arrhenius.py` / `eyring.py` -/
-theorem backend_naturality_rateconst {α β : Type} [Add α] [Sub α] [Mul α] [Div α] [Neg α] [NatCast α] [HasExp α]
-    [Add β] [Sub β] [Mul β] [Div β] [Neg β] [NatCast β] [HasExp β] (φ : α → β) (h : BackendHom φ) (x y z : α) :
-    φ (Gen.arrheniusEquation x y z) = Gen.arrheniusEquation (φ x) (φ y) (φ z)
-    ∧ φ (Gen.eyringEquation x y z) = Gen.eyringEquation (φ x) (φ y) (φ z)
-    ∧ φ (Gen.arrheniusFromRateconstA x y z) = Gen.arrheniusFromRateconstA (φ x) (φ y) (φ z)
-    ∧ φ (Gen.arrheniusEaOverR x) = Gen.arrheniusEaOverR (φ x)
-    ∧ φ (Gen.eyringKBhExpDSR x) = Gen.eyringKBhExpDSR (φ x)
-    ∧ φ (Gen.eyringDHOverR x) = Gen.eyringDHOverR (φ x) :=
-  gen_naturality h x y z
+/-- `symbolic_then_substituted` — the clause "evaluated symbolically and then substituted".  `Sym` is the free term algebra
+the sympy backend builds (variables, numbers, `+ − · / neg`, `**`, `exp`, `log10`, `sin`; evaluation with symbolic values never
+raises and `==` / `<=` on symbols decide nothing), `substEval σ` substitutes numbers for the variables.  For EVERY expression
+tree `v` without a Piecewise instance (its `lo <= x <= up` tests have no truth value on symbols: sympy builds a `Piecewise` of
+closed intervals instead, compared by the oracle at and inside the bounds), whatever the variables hold (symbols or numbers):
+if the numeric evaluation at σ succeeds with `r`, then the symbolic evaluation succeeds with a term `t`, and substituting σ into
+`t` gives exactly `r`. -/
+theorem symbolic_then_substituted (σ : String → ℝ) (ctx : Ctx Sym) (v : Val Sym) (hpw : noPW v = true) (r : ℝ)
+    (hn : eval (ctx.map (substEval σ)) (v.map (substEval σ)) = .ok r) :
+    ∃ t, eval ctx v = .ok t ∧ substEval σ t = r := by
+  obtain ⟨t, ht⟩ := sym_eval_total σ ctx v hpw r hn
+  exact ⟨t, ht, sym_subst_agrees σ ctx v hpw t r ht hn⟩
+
+/-- `unit_scaling_arrhenius_rate` — the units clause for the core case, as pure algebra on magnitudes: measuring
+concentrations in a unit `c` times larger, times in a unit `s` times larger and temperatures in a unit `θ` times larger turns
+the inputs of `MassAction(Arrhenius([A, Ea_over_R]))` into `conc/c`, `T/θ`, `Ea_over_R/θ`, `A·c^(n−1)·s`, and the rate into
+`rate·s/c` — the unit factor of concentration per time: the physical value does not depend on the units. -/
+theorem unit_scaling_arrhenius_rate (ctx ctx' : Ctx ℝ) (A E T c s θ : ℝ) (reac : List (String × ℤ)) (conc : String → ℝ)
+    (hc : 0 < c) (hθ : θ ≠ 0) (hT0 : T ≠ 0)
+    (hT : ctx.vars "temperature" = some T) (hT' : ctx'.vars "temperature" = some (T / θ))
+    (hr : ctx.rxn = .some reac) (hr' : ctx'.rxn = .some reac)
+    (hconc : ∀ p ∈ reac, ctx.vars p.1 = some (conc p.1) ∧ 0 < conc p.1)
+    (hconc' : ∀ p ∈ reac, ctx'.vars p.1 = some (conc p.1 / c)) :
+    ∃ rate : ℝ,
+      eval ctx (.node .massAction false [.node .arrhenius false [.num A, .num E] none] none) = .ok rate ∧
+      eval ctx' (.node .massAction false
+          [.node .arrhenius false [.num (A * c ^ (order reac - 1) * s), .num (E / θ)] none] none)
+        = .ok (rate * s / c) :=
+  arrhenius_rate_unit_scaling ctx ctx' A E T c s θ reac conc hc hθ hT0 hT hT' hr hr' hconc hconc'
 
 /-! ## behaviour mirrored from the code that is not plain arithmetic on values (exact rational witnesses) -/
 
@@ -284,7 +329,17 @@ theorem default_index_wraparound_witness :
 example : BackendHom (id : ℝ → ℝ) :=
   ⟨fun _ _ => rfl, fun _ _ => rfl, fun _ _ => rfl, fun _ _ => rfl, fun _ => rfl, fun _ => rfl, fun _ => rfl⟩
 
-/-- … and a homomorphism in the sense of `backend_naturality` (the identity; every field is checked) -/
+/-- a NON-identity homomorphism in the sense of `backend_naturality`: substitute-then-evaluate from symbolic terms to the
+exception-free reals (every field by computation) -/
+example (σ : String → ℝ) : PyHom (fun t : Sym => (⟨substEval σ t⟩ : RTot)) := substEval_hom σ
+
+/-- the hypotheses of `symbolic_then_substituted` are satisfiable with a symbolic variable: `Arrhenius([A, E])` at a symbolic
+temperature -/
+example : ∃ t, eval (⟨fun k => if k = "temperature" then some (Sym.var "T") else none, .absent⟩ : Ctx Sym)
+    (.node .arrhenius false [.num (Sym.num 2), .num (Sym.num 3)] none) = .ok t :=
+  ⟨_, rfl⟩
+
+/-- … and the identity (every field is checked) -/
 example : PyHom (id : ℝ → ℝ) where
   map_add _ _ := rfl
   map_sub _ _ := rfl
@@ -318,5 +373,91 @@ example : ∃ (ctx : Ctx ℝ) (reac : List (String × ℤ)) (c : String → ℝ)
 /-- operands of the shape required by `operators_are_homomorphic`, with a short-cut taken: `x + 0*y` is `x` -/
 example : pyAdd (symbolNode "x" : Val ℝ) (.node .mul false [symbolNode "y", constNode 0] none) = .ok (symbolNode "x") := by
   simp [pyAdd, Val.isNode, symbolNode, exprAdd, conv, trivZero, constNode]
+
+/-! ## guards: the code the hand-written class bodies of `Model/Expr.call` mirror (regenerated text vs. approved text) -/
+
+/-- `MassAction.active_conc_prod` (chempy/kinetics/rates.py) is the code the hand model `Model/Expr.call` was written from -/
+theorem massActionConcProd_guard : Gen.srcMassActionConcProd =
+    "def(self, variables, backend=math, reaction=None): result = 1; for k, v in reaction.reac.items(): result *= variables[k] ** v; return result" := rfl
+
+/-- `MassAction.rate_coeff` (chempy/kinetics/rates.py) is the code the hand model `Model/Expr.call` was written from -/
+theorem massActionRateCoeff_guard : Gen.srcMassActionRateCoeff =
+    "def(self, variables, backend=math, **kwargs): rat_c, = self.all_args(variables, backend=backend, **kwargs); return rat_c" := rfl
+
+/-- `MassAction.__call__` (chempy/kinetics/rates.py) is the code the hand model `Model/Expr.call` was written from -/
+theorem massActionCall_guard : Gen.srcMassActionCall =
+    "def(self, variables, backend=math, reaction=None, **kwargs): return self.rate_coeff(variables, backend=backend, reaction=reaction) * self.active_conc_prod(variables, backend=backend, reaction=reaction, **kwargs)" := rfl
+
+/-- `Arrhenius.__call__` (chempy/kinetics/rates.py) is the code the hand model `Model/Expr.call` was written from -/
+theorem arrheniusCall_guard : Gen.srcArrheniusCall =
+    "def(self, variables, backend=math, **kwargs): A, Ea_over_R = self.all_args(variables, backend=backend, **kwargs); try: Ea_over_R = Ea_over_R.simplified except AttributeError: pass; return A * backend.exp(-Ea_over_R / variables['temperature'])" := rfl
+
+/-- `Eyring.__call__` (chempy/kinetics/rates.py) is the code the hand model `Model/Expr.call` was written from -/
+theorem eyringCall_guard : Gen.srcEyringCall =
+    "def(self, variables, backend=math, **kwargs): c0, c1, conc0 = self.all_args(variables, backend=backend, **kwargs); T = variables['temperature']; try: c1 = c1.simplified except AttributeError: pass; return c0 * T * backend.exp(-c1 / T) * conc0 ** (1 - kwargs['reaction'].order())" := rfl
+
+/-- `EyringHS.__call__` (chempy/kinetics/rates.py) is the code the hand model `Model/Expr.call` was written from -/
+theorem eyringHSCall_guard : Gen.srcEyringHSCall =
+    "def(self, variables, backend=math, reaction=None, **kwargs): dH, dS, c0 = self.all_args(variables, backend=backend, **kwargs); T, R, kB, h = [variables[k] for k in self.parameter_keys]; exponent = -(dH - T * dS) / (R * T); try: exponent = exponent.simplified except AttributeError: pass; return kB / h * T * backend.exp(exponent) * c0 ** (1 - reaction.order())" := rfl
+
+/-- `mk_Radiolytic._Radiolytic.__call__` (chempy/kinetics/rates.py) is the code the hand model `Model/Expr.call` was written from -/
+theorem radiolyticCall_guard : Gen.srcRadiolyticCall =
+    "def(self, variables, backend=math, reaction=None, **kwargs): return variables['density'] * reduce(add, [variables[k] * gval for k, gval in zip(self.parameter_keys[1:], self.all_args(variables, backend=backend, **kwargs))])" := rfl
+
+/-- `RampedTemp.__call__` (chempy/kinetics/rates.py) is the code the hand model `Model/Expr.call` was written from -/
+theorem rampedTempCall_guard : Gen.srcRampedTempCall =
+    "def(self, variables, backend=None, **kwargs): T0, dTdt = self.all_args(variables, backend=backend, **kwargs); return T0 + dTdt * variables['time']" := rfl
+
+/-- `SinTemp.__call__` (chempy/kinetics/rates.py) is the code the hand model `Model/Expr.call` was written from -/
+theorem sinTempCall_guard : Gen.srcSinTempCall =
+    "def(self, variables, backend=math, **kwargs): Tbase, Tamp, angvel, phase = self.all_args(variables, backend=backend, **kwargs); return Tbase + Tamp * backend.sin(angvel * variables['time'] + phase)" := rfl
+
+/-- `MassActionEq.eq_const` (chempy/thermodynamics/expressions.py) is the code the hand model `Model/Expr.call` was written from -/
+theorem massActionEqConst_guard : Gen.srcMassActionEqConst =
+    "def(self, variables, backend=math, **kwargs): eq_c, = self.all_args(variables, backend=backend, **kwargs); return eq_c" := rfl
+
+/-- `MassActionEq.__call__` (chempy/thermodynamics/expressions.py) is the code the hand model `Model/Expr.call` was written from -/
+theorem massActionEqCall_guard : Gen.srcMassActionEqCall =
+    "def(self, *args, **kwargs): return self.eq_const(*args, **kwargs)" := rfl
+
+/-- `GibbsEqConst.eq_const` (chempy/thermodynamics/expressions.py) is the code the hand model `Model/Expr.call` was written from -/
+theorem gibbsEqConst_guard : Gen.srcGibbsEqConst =
+    "def(self, variables, backend=math, **kwargs): dH_over_R, dS_over_R = self.all_args(variables, backend=backend); T, = self.all_params(variables, backend=backend); exponent = dS_over_R - dH_over_R / T; try: exponent = exponent.simplified except AttributeError: pass; return backend.exp(exponent)" := rfl
+
+/-- `create_Poly._poly` (chempy/util/_expr.py) is the code the hand model `Model/Expr.call` was written from -/
+theorem poly_guard : Gen.srcPoly =
+    "def(args, x, backend=math, **kwargs): if shift is None: coeffs = args x0 = x else: coeffs = args[1:] x_shift = args[0] x0 = x - x_shift; cur = 1; res = None; for coeff in coeffs: if res is None: res = coeff * cur else: res += coeff * cur if reciprocal: cur /= x0 else: cur *= x0; return res" := rfl
+
+/-- `create_Piecewise._pw` (chempy/util/_expr.py) is the code the hand model `Model/Expr.call` was written from -/
+theorem piecewise_guard : Gen.srcPiecewise =
+    "def(bounds_exprs, x, backend=math, **kwargs): if len(bounds_exprs) < 3: raise ValueError('Need at least 3 args'); if len(bounds_exprs) % 2 != 1: raise ValueError('Need an odd number of bounds/exprs'); n_exprs = (len(bounds_exprs) - 1) // 2; lower = [bounds_exprs[2 * (i + 0)] for i in range(n_exprs)]; upper = [bounds_exprs[2 * (i + 1)] for i in range(n_exprs)]; exprs = [bounds_exprs[2 * i + 1] for i in range(n_exprs)]; try: pw = backend.Piecewise except AttributeError: for lo, up, ex in zip(lower, upper, exprs): if lo <= x <= up: return ex else: raise ValueError('not within any bounds: %s' % x) else: _NAN = backend.Symbol('NAN') return pw(*[(ex, backend.And(lo <= x, x <= up)) for lo, up, ex in zip(lower, upper, exprs)] + ([(_NAN, True)] if nan_fallback else []))" := rfl
+
+/-- `Expr.from_callback.body` (chempy/util/_expr.py) is the code the hand model `Model/Expr.call` was written from -/
+theorem fromCallbackBody_guard : Gen.srcFromCallbackBody =
+    "def(self, variables, backend=math, **kw): args = self.all_args(variables, backend=backend); params = self.all_params(variables, backend=backend); return callback(args, *params, backend=backend, **kw)" := rfl
+
+/-- `UnaryFunction.__call__` (chempy/util/_expr.py) is the code the hand model `Model/Expr.call` was written from -/
+theorem unaryFunctionCall_guard : Gen.srcUnaryFunctionCall =
+    "def(self, variables, backend=math, **kwargs): arg, = self.all_args(variables, backend=backend, **kwargs); return getattr(backend, self._func_name)(arg)" := rfl
+
+/-- `Log10.__call__` (chempy/util/_expr.py) is the code the hand model `Model/Expr.call` was written from -/
+theorem log10Call_guard : Gen.srcLog10Call =
+    "def(self, variables, backend=math, **kwargs): if hasattr(backend, 'log10'): return super().__call__(variables, backend=backend, **kwargs); arg, = self.all_args(variables, backend=backend, **kwargs); return backend.log(arg) / backend.log(10)" := rfl
+
+/-- `_BinaryExpr.__call__` (chempy/util/_expr.py) is the code the hand model `Model/Expr.call` was written from -/
+theorem binaryCall_guard : Gen.srcBinaryCall =
+    "def(self, variables, backend=math, **kwargs): arg0, arg1 = self.all_args(variables, backend=backend, **kwargs); return self._op(arg0, arg1)" := rfl
+
+/-- `_NegExpr.__call__` (chempy/util/_expr.py) is the code the hand model `Model/Expr.call` was written from -/
+theorem negCall_guard : Gen.srcNegCall =
+    "def(self, variables, backend=math, **kwargs): arg0, = self.all_args(variables, backend=backend, **kwargs); return -arg0" := rfl
+
+/-- `Constant.__call__` (chempy/util/_expr.py) is the code the hand model `Model/Expr.call` was written from -/
+theorem constantCall_guard : Gen.srcConstantCall =
+    "def(self, variables, backend=None, **kwargs): return self.args[0]" := rfl
+
+/-- `Symbol.__call__` (chempy/util/_expr.py) is the code the hand model `Model/Expr.call` was written from -/
+theorem symbolCall_guard : Gen.srcSymbolCall =
+    "def(self, variables, backend=None, **kwargs): uk, = self.unique_keys; return variables[uk]" := rfl
 
 end ChemModel.C16
